@@ -3,7 +3,7 @@ package node
 type FieldsMatcher struct {
 	expression string
 	reverse    bool
-	selector   PathMatcher
+	selector   *PathMatchExpression
 }
 
 // NewExcludeFieldsMatcher excludes fields that match pattern
@@ -28,12 +28,21 @@ func (self *FieldsMatcher) CheckContainerPreConstraints(r *ChildRequest) (bool, 
 	if r.IsNavigation() {
 		return true, nil
 	}
-	return self.selector.PathMatches(r.Base, r.Path) != self.reverse, nil
+	return self.visible(r.Base, r.Path), nil
+}
+
+// a node is shown when it is named by the expression or lies below a named node, and, for
+// "fields", also when it lies on the way to a named node
+func (self *FieldsMatcher) visible(base *Path, candidate *Path) bool {
+	if self.reverse {
+		return !self.selector.PathMatches(base, candidate)
+	}
+	return self.selector.PathMatches(base, candidate) || self.selector.PathLeadsTo(base, candidate)
 }
 
 func (self *FieldsMatcher) CheckFieldPreConstraints(r *FieldRequest, hnd *ValueHandle) (bool, error) {
 	if r.IsNavigation() {
 		return true, nil
 	}
-	return self.selector.PathMatches(r.Base, r.Path) != self.reverse, nil
+	return self.visible(r.Base, r.Path), nil
 }
